@@ -1,4 +1,5 @@
 import GomlVerif.Lemmas.ValTyBasic
+import GomlVerif.Lemmas.ValTyKey
 /-!
 Operators, constructors and the admitted builtins respect value typing (C03, type soundness of `Sem`).
 -/
@@ -15,7 +16,7 @@ set_option hygiene false in
 macro "opfin" : tactic => `(tactic|
   first
   | contradiction
-  | (injection hr with hr; subst hr; first | constructor | (cases ha; constructor)))
+  | (injection hr with hr; subst hr; first | (constructor; done) | (cases ha; constructor; assumption) | (cases ha; constructor)))
 
 set_option hygiene false in
 macro "opall" : tactic => `(tactic|
@@ -163,7 +164,7 @@ theorem builtin_sound {f : String} {ps : List Ty} {r : Ty} {args : List Val} {w 
   · obtain ⟨s, rfl⟩ := VT_str ha1
     simp [builtin] at hr; obtain ⟨rfl, _⟩ := hr; constructor
   · obtain ⟨s, rfl⟩ := VT_str ha1
-    simp [builtin] at hr; obtain ⟨rfl, _⟩ := hr; constructor
+    simp [builtin] at hr; obtain ⟨rfl, _⟩ := hr; exact .int _ _ _ (by decide)
   · obtain ⟨x, rfl⟩ := VT_float ha1
     rw [b_f32] at hr; simp at hr; obtain ⟨rfl, _⟩ := hr; constructor
   · obtain ⟨x, rfl⟩ := VT_float ha1
@@ -173,11 +174,11 @@ theorem builtin_sound {f : String} {ps : List Ty} {r : Ty} {args : List Val} {w 
 
 theorem isEnumTy_subst (θ : Subst) (t : Ty) (h : isEnumTy t = true) : isEnumTy (substTy θ t) = true := by
   unfold isEnumTy at h
-  split at h <;> simp_all [substTy, isEnumTy]
+  split at h <;> simp_all [substTy, substTys, isEnumTy]
 
 theorem isStructTy_subst (θ : Subst) (t : Ty) (h : isStructTy t = true) : isStructTy (substTy θ t) = true := by
   unfold isStructTy at h
-  split at h <;> simp_all [substTy, isStructTy]
+  split at h <;> simp_all [substTy, substTys, isStructTy]
 
 theorem not_enum_and_struct {t : Ty} (h1 : isEnumTy t = true) (h2 : isStructTy t = true) : False := by
   unfold isEnumTy at h1
